@@ -12,6 +12,7 @@
 #ifndef VT_ARCH_H
 #define VT_ARCH_H
 #include <cstddef>
+#include <iterator>
 #include <type_traits>
 
 namespace vt {
@@ -45,6 +46,33 @@ class Arch {
   friend bool operator>=(const Arch &, const Arch &) { return false; }
   friend bool operator==(const Arch &, const Arch &) { return false; }
   friend bool operator!=(const Arch &, const Arch &) { return false; }
+};
+
+// vt::InIt -- single-pass input-iterator archetype: exactly what LegacyInputIterator guarantees. All copies read
+// from one underlying stream (like std::istream_iterator): once any copy has been incremented, the range cannot be
+// traversed a second time. The region evaluator models it natively (bsv/interp.py, class SinglePass); the
+// declarations below only make the library's iterator-pair constructors instantiate with it.
+template <typename T>
+class InIt {
+  const void *_stream = nullptr;
+
+ public:
+  using iterator_category = std::input_iterator_tag;
+  using value_type = T;
+  using difference_type = std::ptrdiff_t;
+  using pointer = const T *;
+  using reference = const T &;
+  InIt() = default;                           // the end-of-stream sentinel
+  template <typename C>
+  explicit InIt(const C &source);             // reads from `source`, front to back
+  InIt(const InIt &) = default;
+  InIt &operator=(const InIt &) = default;
+  reference operator*() const;
+  pointer operator->() const;
+  InIt &operator++();
+  void operator++(int);                       // (LegacyInputIterator: the result of it++ need not be an iterator)
+  friend bool operator==(const InIt &, const InIt &) { return true; }
+  friend bool operator!=(const InIt &, const InIt &) { return false; }
 };
 }  // namespace vt
 #endif
